@@ -1,14 +1,16 @@
 """C07: collapse removes exactly the targeted branches; resolve only refines."""
 from lib import *
+import math
 
 PROP = "C07"
+PAR_OK = True
 LEVEL = "proof"
 RULE = ("random multifurcating trees (3..16 tips, 40 in thorough; rooted/unrooted; degrees up to 7; lengths all/mixed/none "
         "with zeros and absent values, supports all/mixed/none) x {collapse by length with threshold = a length present in "
         "the tree | 0 | a random dyadic | -1 | larger than all; collapse by support likewise; collapse by depth with every "
         "kind of interval (min<=max, min>max, 0, 1, n/2, beyond n); resolve with a recorded rand stream}; removeRoot and "
         "removeTips false (the commands' defaults, exact-set oracle) and the other flag values (correspondence, same tips, "
-        "well-formed); non-trivial = the structure changed; distinct = distinct case text")
+        "well-formed); non-trivial = the structure changed; distinct = distinct case text.  Boundaries: thresholds are also drawn from {a length (support) of the tree, that value +- 2^-30, +- 2^-40, the next float64 above / below it, 0 with tiny positive lengths (2^-30, 2^-40, 2^-52) put on inner branches, a negative value}; some inner branches get the threshold +- a tiny dyadic as length (support); depth intervals are drawn around the depths present in the tree (d-1, d, d+1).  All values are exactly representable float64 and compared exactly (rationals) by the model and the oracle")
 TRUSTED = ["tree built through NewNode/NewEdge + verif hooks (exact neighbour order); dump through Neigh()/Edges()/Left()/Right()"]
 ASSUMPTIONS = ["math/rand: Intn/Int31n/Perm transcribed in Model/Rand.v; the recorded Int63 stream is what Resolve consumes"]
 LEVEL_TEXT = "theorems in coq/Properties/C07.v about Model/Collapse.v; correspondence by exact structural equality with the Go result"
@@ -16,6 +18,59 @@ LEVEL_NOTE = ""
 
 def edge_values(t, key):
     return [e[key] for x in preorder(t) for e, _ in kids(x) if e[key] is not None]
+
+
+TINY = [Fraction(1, 2**30), Fraction(1, 2**40), Fraction(1, 2**52)]
+
+def near(rng, x):
+    """an exactly representable float64 at or just beside x"""
+    x = Fraction(x)
+    f = float(x)
+    c = [x, x + TINY[0], x - TINY[0], x + TINY[1], x - TINY[1],
+         Fraction(math.nextafter(f, math.inf)), Fraction(math.nextafter(f, -math.inf))]
+    c = [y for y in c if Fraction(float(y)) == y]
+    return rng.choice(c)
+
+def inner_edges(t):
+    return [e for x in preorder(t) for e, c in kids(x) if kids(c)]
+
+def branch_depths(t):
+    n = len(leaves(t))
+    ds = []
+    def walk(x):
+        for _, c in kids(x):
+            k = len(leaves(c))
+            ds.append(min(k, n - k))
+            walk(c)
+    walk(t)
+    return ds
+
+def boundary_len_case(rng, t):
+    """threshold and inner lengths a hair apart"""
+    ie = [e for e in inner_edges(t) if e["len"] is not None]
+    r = rng.random()
+    if r < 0.35 or not ie:
+        # threshold 0 (or a present value) and tiny positive inner lengths
+        for e in rng.sample(inner_edges(t), min(len(inner_edges(t)), rng.randint(1, 3))):
+            e["len"] = rng.choice(TINY)
+        return rng.choice([Fraction(0), Fraction(0), rng.choice(TINY), -rng.choice(TINY)])
+    base = rng.choice(ie)["len"]
+    for e in rng.sample(inner_edges(t), min(len(inner_edges(t)), rng.randint(1, 3))):
+        v = near(rng, base)
+        if v >= 0:
+            e["len"] = v
+    return near(rng, base)
+
+def boundary_sup_case(rng, t):
+    ie = [e for e in inner_edges(t) if e["sup"] is not None]
+    if not ie:
+        return None
+    base = rng.choice(ie)["sup"]
+    for e in rng.sample(ie, min(len(ie), rng.randint(1, 3))):
+        v = near(rng, base)
+        if v >= 0:
+            e["sup"] = v
+    return near(rng, base)
 
 def gen(rng, tier):
     g = Gen(rng)
@@ -61,7 +116,24 @@ def gen(rng, tier):
         # resolve
         nb = sum(len(kids(x)) for x in preorder(t) if len(x["slots"]) > 3)
         ops.append({"op": Sym("resolve"), "tree": T(t), "seed": rng.randrange(1, 2**31), "nraw": 4 * nb + 16})
+        # depth intervals around the depths present in the tree
+        ds = branch_depths(t)
+        if ds:
+            d = rng.choice(ds)
+            mn, mx = rng.choice([(d, d), (d + 1, d + 2), (d - 1, d - 1), (d, d + 1), (d - 1, d), (1, d), (d, ntips)])
+            rr, rt = flags()
+            ops.append({"op": Sym("collapse_depth"), "tree": T(t), "min": mn, "max": mx, "rr": rr, "rt": rt})
+        # boundary values: the tree is modified, so these go last (T(t) is rendered when built)
+        if inner_edges(t):
+            l = boundary_len_case(rng, t)
+            for rr, rt in [(False, False), flags()]:
+                ops.append({"op": Sym("collapse_len"), "tree": T(t), "l": l, "rr": rr, "rt": rt, "boundary": True})
+            s_ = boundary_sup_case(rng, t)
+            if s_ is not None:
+                for rr in [False, flags()[0]]:
+                    ops.append({"op": Sym("collapse_sup"), "tree": T(t), "s": s_, "rr": rr, "rt": False, "boundary": True})
         for o in ops:
-            out.append({"sx": sx(o), "meta": {"op": o["op"].s, "ntips": ntips, "rooted": rooted,
+            bd = o.pop("boundary", False)
+            out.append({"sx": sx(o), "meta": {"op": o["op"].s, "ntips": ntips, "rooted": rooted, "boundary": bd,
                                               "rr": bool(o.get("rr")), "rt": bool(o.get("rt"))}})
     return out
